@@ -320,6 +320,11 @@ impl Planner {
                 if cc.sheets[j] < 2 {
                     continue;
                 }
+                // the deepest covers of the thorough tier (more than 48 sheets of the
+                // cube, more than 8 of another literal) get a single run
+                let deep_cover = cc.sheets[j] > if cc.text == CUBE { 48 } else { 8 } && cc.k > 24;
+                let deep_lit = cc.sheets[j] > 8 && cc.text != CUBE && cc.text != HEX_PRISM;
+                let reps = if deep_cover || deep_lit { 1 } else { reps };
                 for r in 0..reps {
                     let group = format!("{}/c{}.{}", cc.id, cc.k, j);
                     let (mut s, mut rng) = self.base_spec(&group, &cc.text, Op::IsEuclidean);
@@ -612,7 +617,9 @@ impl Planner {
                 }
                 let group = format!("{}/c{}.{}", cc.id, cc.k, j);
                 let pre = vec![Xf::Cover { k: cc.k, j }];
+                let deep = is_sweep && ((cc.text == CUBE && cc.sheets[j] > 48) || (cc.text != CUBE && cc.text != HEX_PRISM && cc.sheets[j] > 8));
                 let (cs, keys) = match (thorough, is_sweep) {
+                    _ if deep => (1, 1),
                     (false, false) => (3, 1),
                     (true, false) => (60, 2),
                     (false, true) => (1, 1),
@@ -724,7 +731,7 @@ pub const HEX_PRISM: &str = "<1.1:2 3:2,1 2,1 2,2:6,3 2,6>";
 pub fn sweep_counts(corpus: &Corpus, tier: Tier) -> CoverCounts {
     // cube: 32 sheets in quick (seeded defect S25 first shows on a 27-sheeted cover: an
     // i8 node table overflowing at 129 raw orbifold-graph nodes), 48 in thorough
-    let (kc, kh) = if tier == Tier::Thorough { (48, 24) } else { (32, 16) };
+    let (kc, kh) = if tier == Tier::Thorough { (64, 24) } else { (32, 16) };
     let mut entries: Vec<(&Entry, bool, usize)> = vec![];
     for e in corpus.k0.iter() {
         if e.text == CUBE {
@@ -738,7 +745,7 @@ pub fn sweep_counts(corpus: &Corpus, tier: Tier) -> CoverCounts {
     // covers of 4-sheeted covers of one literal)
     for e in corpus.k0.iter() {
         if e.text != CUBE && e.text != HEX_PRISM {
-            entries.push((e, true, if tier == Tier::Thorough { 8 } else { 6 }));
+            entries.push((e, true, if tier == Tier::Thorough { 12 } else { 6 }));
         }
     }
     CoverCounts::compute(&entries)
